@@ -25,7 +25,7 @@ class SamplerBase:
     def __iter__(self):
         indices = self._generate_indices()
         # distribute among ranks
-        indices = indices[self.rank:self.total_size:self.world_size]
+        indices = indices[self.rank:self.effective_length:self.world_size]
         # drop last
         indices = indices[:len(self)]
         yield from indices
